@@ -606,21 +606,16 @@ theorem R.dropFront {s : St} {items pipe : List Item} (h : R s (items ++ pipe)) 
   · intro b hb e he it hit
     exact r10 b hb e he it (List.mem_append.mpr (Or.inl hit))
 
-theorem startBatch_RR (fuel : Nat) (s : St) (pipe : List Item) (items : List Item) (bound : Nat)
-    (hr : R s pipe) (hrb : RB s) (hi : Ready s pipe items) :
-    R (startBatch fuel s items bound) pipe ∧ RB (startBatch fuel s items bound) := by
+/-- the state in which a new batch occupies its slot, before its first actions run -/
+theorem startBatch_mid (s : St) (pipe : List Item) (items : List Item) (bound : Nat) (script : Script) (seen' : List (Nat × Nat))
+    (hr : R s pipe) (hi : Ready s pipe items) (b0 : Batch)
+    (hb0 : ({ id := s.nb, items := items, futs := futsOf items, script := script, next := s.now + (script.head?.map (·.1)).getD 0, bound := bound } : Batch) = b0)
+    (s1 : St)
+    (hs1 : ({ s with nb := s.nb + 1, seen := seen', outs := s.outs ++ [Out.batch s.now s.nb (items.map Item.key)], started := s.started ++ items.map Item.fut, batchLog := s.batchLog ++ [(items.length, bound)], running := s.running ++ [b0] } : St) = s1) :
+    R s1 pipe ∧ BI s1 pipe b0 := by
   have hkeys := hi.keysNodup hr
-  unfold startBatch
-  simp only []
-  generalize hbeh : behaviour s.plan s.nb (List.map (fun it => (it.key, it.fut)) items) s.seen = beh0
-  clear hbeh beh0
-  generalize behaviour s.plan s.nb (List.map (fun it => (it.key, it.arg)) items) s.seen = beh
-  obtain ⟨script, seen'⟩ := beh
-  simp only []
-  generalize hb0 : ({ id := s.nb, items := items, futs := futsOf items, script := script, next := s.now + (script.head?.map (·.1)).getD 0, bound := bound } : Batch) = b0
   have hb0f : b0.futs = items.map fun it => (it.key, it.fut) := by rw [← hb0]; exact futsOf_eq items hkeys
   have hb0id : b0.id = s.nb := by rw [← hb0]
-  generalize hs1 : ({ s with nb := s.nb + 1, seen := seen', outs := s.outs ++ [Out.batch s.now s.nb (items.map Item.key)], started := s.started ++ items.map Item.fut, batchLog := s.batchLog ++ [(items.length, bound)], running := s.running ++ [b0] } : St) = s1
   -- the state in which the batch occupies its slot
   have hfs1 : ∀ g, futState s1 g = futState s g := by intro g; rw [← hs1]; rfl
   have hfk1 : ∀ g, futKey s1 g = futKey s g := by intro g; rw [← hs1]; rfl
@@ -721,6 +716,26 @@ theorem startBatch_RR (fuel : Nat) (s : St) (pipe : List Item) (items : List Ite
       rcases h with h | ⟨_, _, h⟩
       · exact r8 t id ks h
       · rw [h]; exact hkeys
+  exact ⟨hr1, hbi⟩
+
+theorem startBatch_RR (fuel : Nat) (s : St) (pipe : List Item) (items : List Item) (bound : Nat)
+    (hr : R s pipe) (hrb : RB s) (hi : Ready s pipe items) :
+    R (startBatch fuel s items bound) pipe ∧ RB (startBatch fuel s items bound) := by
+  have hkeys := hi.keysNodup hr
+  unfold startBatch
+  simp only []
+  generalize hbeh : behaviour s.plan s.nb (List.map (fun it => (it.key, it.fut)) items) s.seen = beh0
+  clear hbeh beh0
+  generalize behaviour s.plan s.nb (List.map (fun it => (it.key, it.arg)) items) s.seen = beh
+  obtain ⟨script, seen'⟩ := beh
+  simp only []
+  generalize hb0 : ({ id := s.nb, items := items, futs := futsOf items, script := script, next := s.now + (script.head?.map (·.1)).getD 0, bound := bound } : Batch) = b0
+  have hb0f : b0.futs = items.map fun it => (it.key, it.fut) := by rw [← hb0]; exact futsOf_eq items hkeys
+  have hb0id : b0.id = s.nb := by rw [← hb0]
+  generalize hs1 : ({ s with nb := s.nb + 1, seen := seen', outs := s.outs ++ [Out.batch s.now s.nb (items.map Item.key)], started := s.started ++ items.map Item.fut, batchLog := s.batchLog ++ [(items.length, bound)], running := s.running ++ [b0] } : St) = s1
+  have hfs1 : ∀ g, futState s1 g = futState s g := by intro g; rw [← hs1]; rfl
+  have hrun1 : s1.running = s.running ++ [b0] := by rw [← hs1]
+  obtain ⟨hr1, hbi⟩ := startBatch_mid s pipe items bound script seen' hr hi b0 hb0 s1 hs1
   obtain ⟨hr2, hb2⟩ := pump_R fuel s1 pipe b0 hr1 hbi
   have hfr := (pump_spec fuel s1 b0).1
   have hpf := pump_futState fuel s1 b0
